@@ -273,6 +273,30 @@ pub fn do_call(c: &mut Box<dyn Conn>, call: &Call, pidmap: &mut HashMap<i64, i64
         "set_interval" => catch(|| c.set_interval(call.val)).map(|ev| Ok((ev, call.clone()))),
         "set_resp_timeout" => catch(|| c.set_resp_timeout(call.val)).map(|_| Ok((vec![], call.clone()))),
         "opt" => catch(|| c.set_opt(&call.name, call.flag)).map(|_| Ok((vec![], call.clone()))),
+        "regulate" => {
+            let p = call.pkt.clone();
+            match catch(|| c.regulate(&p)) {
+                Err(msg) => Err(msg),
+                Ok(Err(e)) => Ok(Err(e)),
+                Ok(Ok(res)) => {
+                    let mut c2 = call.clone();
+                    match res {
+                        Ok(mut q) => {
+                            if let Some(sz) = c.size_of(&q) {
+                                q.size = sz;
+                            }
+                            c2.ok = true;
+                            c2.pkts = vec![q];
+                        }
+                        Err(_) => {
+                            c2.ok = false;
+                            c2.pkts = vec![];
+                        }
+                    }
+                    Ok(Ok((vec![], c2)))
+                }
+            }
+        }
         "restore" => {
             for q in call.pkts.iter_mut() {
                 if let Some(sz) = c.size_of(q) {
